@@ -1047,6 +1047,160 @@ func (e *Engine) globalInit(g *ssa.Global) (*Term, error) {
 	return val, nil
 }
 
+// globalMapTable reads a package-level map variable initialised by a composite literal with constant
+// keys and constant (or constant-slice) values, provided nothing in the package writes the variable or
+// updates / deletes from a map loaded from it (same assumption as for the other package-level tables:
+// read from the constant initializer).
+func (e *Engine) globalMapTable(g *ssa.Global) ([][2]*Term, bool) {
+	if t, ok := e.globalMaps[g]; ok {
+		return t, t != nil
+	}
+	if e.globalMaps == nil {
+		e.globalMaps = map[*ssa.Global][][2]*Term{}
+	}
+	e.globalMaps[g] = nil
+	init := g.Pkg.Func("init")
+	if init == nil {
+		return nil, false
+	}
+	fromG := func(v ssa.Value) bool {
+		ld, ok := v.(*ssa.UnOp)
+		return ok && ld.Op == token.MUL && ld.X == g
+	}
+	for _, m := range g.Pkg.Members {
+		fn, ok := m.(*ssa.Function)
+		if !ok {
+			continue
+		}
+		fns := append([]*ssa.Function{fn}, fn.AnonFuncs...)
+		for _, fn := range fns {
+			for _, b := range fn.Blocks {
+				for _, ins := range b.Instrs {
+					switch x := ins.(type) {
+					case *ssa.Store:
+						if root(x.Addr) == g && fn.Name() != "init" {
+							return nil, false
+						}
+					case *ssa.MapUpdate:
+						if fromG(x.Map) {
+							return nil, false
+						}
+					case *ssa.Call:
+						if bi, ok := x.Call.Value.(*ssa.Builtin); ok && bi.Name() == "delete" && fromG(x.Call.Args[0]) {
+							return nil, false
+						}
+					}
+				}
+			}
+		}
+	}
+	var mm *ssa.MakeMap
+	for _, b := range init.Blocks {
+		for _, ins := range b.Instrs {
+			if st, ok := ins.(*ssa.Store); ok && st.Addr == g {
+				if mm != nil {
+					return nil, false
+				}
+				mk, ok := st.Val.(*ssa.MakeMap)
+				if !ok {
+					return nil, false
+				}
+				mm = mk
+			}
+		}
+	}
+	if mm == nil {
+		return nil, false
+	}
+	fr := &frame{e: e, pure: true, bound: true}
+	constTerm := func(v ssa.Value) (*Term, bool) {
+		switch x := v.(type) {
+		case *ssa.Const:
+			cv, err := fr.constVal(x)
+			if err != nil || cv.T == nil {
+				return nil, false
+			}
+			return cv.T, true
+		case *ssa.Slice:
+			al, ok := x.X.(*ssa.Alloc)
+			if !ok || x.Low != nil || x.High != nil || x.Max != nil {
+				return nil, false
+			}
+			arr, ok := al.Type().(*types.Pointer).Elem().Underlying().(*types.Array)
+			if !ok {
+				return nil, false
+			}
+			elems := make([]*Term, arr.Len())
+			for _, r := range *al.Referrers() {
+				ia, ok := r.(*ssa.IndexAddr)
+				if !ok {
+					if r == x {
+						continue
+					}
+					return nil, false
+				}
+				ic, ok := ia.Index.(*ssa.Const)
+				if !ok {
+					return nil, false
+				}
+				iv, _ := constant.Int64Val(ic.Value)
+				for _, r2 := range *ia.Referrers() {
+					st, ok := r2.(*ssa.Store)
+					if !ok || st.Addr != ia {
+						return nil, false
+					}
+					c, ok := st.Val.(*ssa.Const)
+					if !ok {
+						return nil, false
+					}
+					cv, err := fr.constVal(c)
+					if err != nil || cv.T == nil {
+						return nil, false
+					}
+					elems[iv] = cv.T
+				}
+			}
+			for _, el := range elems {
+				if el == nil {
+					return nil, false
+				}
+			}
+			ss, err := e.Sorts.SortOf(x.Type())
+			if err != nil {
+				return nil, false
+			}
+			return SeqLit(ss, elems...), true
+		}
+		return nil, false
+	}
+	var tab [][2]*Term
+	for _, r := range *mm.Referrers() {
+		switch x := r.(type) {
+		case *ssa.MapUpdate:
+			if x.Map != mm {
+				return nil, false
+			}
+			k, ok1 := constTerm(x.Key)
+			v, ok2 := constTerm(x.Value)
+			if !ok1 || !ok2 {
+				return nil, false
+			}
+			tab = append(tab, [2]*Term{k, v})
+		case *ssa.Store:
+			if x.Val != mm || x.Addr != g {
+				return nil, false
+			}
+		default:
+			return nil, false
+		}
+	}
+	if tab == nil {
+		tab = [][2]*Term{}
+	}
+	e.globalMaps[g] = tab
+	return tab, true
+}
+
 func root(v ssa.Value) ssa.Value {
 	for {
 		switch x := v.(type) {
@@ -1172,6 +1326,19 @@ func (f *frame) mapLookup(x *ssa.Lookup) error {
 	}
 	val := Ite(has, Select(Select(varr, mv.T), k), z)
 	et := mt.Underlying().(*types.Map).Elem()
+	// a package-level map built by a constant composite literal and never written afterwards is a table
+	if ld, ok := x.X.(*ssa.UnOp); ok && ld.Op == token.MUL {
+		if g, ok := ld.X.(*ssa.Global); ok {
+			if tab, ok := f.e.globalMapTable(g); ok {
+				has, val = TFalse, z
+				for i := len(tab) - 1; i >= 0; i-- {
+					hit := Eq(k, tab[i][0])
+					has = Or(hit, has)
+					val = Ite(hit, tab[i][1], val)
+				}
+			}
+		}
+	}
 	if x.CommaOk {
 		f.vals[x] = &Val{Tuple: []*Val{{T: f.define(f.name(x)+"!v", val), Typ: et}, {T: has, Typ: types.Typ[types.Bool]}}}
 		return nil
